@@ -41,6 +41,24 @@ func (s sfSession) Append(mailbox string, r imap.LiteralReader, options *imap.Ap
 	return s.recSessionFull.Append(mailbox, r, options)
 }
 
+// Fetch answers every requested body section for message 1 with a five-octet body, so that the
+// section specification (with the header field names the client sent) is echoed in the response.
+func (s sfSession) Fetch(w *imapserver.FetchWriter, numSet imap.NumSet, options *imap.FetchOptions) error {
+	if err := s.rec("Fetch", fmtNumSet(numSet)+" "+fmtFetchOptions(options)); err != nil {
+		return err
+	}
+	if options == nil || len(options.BodySection) == 0 {
+		return nil
+	}
+	rw := w.CreateMessage(1)
+	for _, bs := range options.BodySection {
+		wc := rw.WriteBodySection(bs, 5)
+		wc.Write([]byte("hello"))
+		wc.Close()
+	}
+	return rw.Close()
+}
+
 // Idle counts the calls that have not returned yet: after the connection is gone there must be none.
 func (s sfSession) Idle(w *imapserver.UpdateWriter, stop <-chan struct{}) error {
 	s.idle.Add(1)
@@ -53,7 +71,7 @@ func (s sfSession) Status(mailbox string, options *imap.StatusOptions) (*imap.St
 		return nil, err
 	}
 	n, z := uint32(1), int64(0)
-	return &imap.StatusData{Mailbox: "M", NumMessages: &n, UIDNext: 2, UIDValidity: 1, NumUnseen: &n,
+	return &imap.StatusData{Mailbox: mailbox, NumMessages: &n, UIDNext: 2, UIDValidity: 1, NumUnseen: &n,
 		NumDeleted: &n, Size: &z, DeletedStorage: &z}, nil
 }
 
@@ -165,6 +183,21 @@ func (env *sfEnv) dial() *sfConn {
 	sc := &sfConn{env: env, c: c, sess: s, budget: -1}
 	sc.settle() // greeting
 	return sc
+}
+
+// dialGone hands the server a connection whose client end is already closed: the greeting cannot
+// be written. Whatever the server does with the session it created, it must close it.
+func (env *sfEnv) dialGone() *sfConn {
+	c, srvEnd := memPipe()
+	c.Close()
+	env.ln.ch <- srvEnd
+	var s *recSession
+	select {
+	case s = <-env.newS:
+	case <-time.After(sfPatience()):
+		sfTimeouts.Add(1)
+	}
+	return &sfConn{env: env, c: c, sess: s, budget: -1, state: "closed"}
 }
 
 // settle waits until the server has consumed everything and collects what it wrote.
@@ -633,6 +666,10 @@ func sfDecode(s string) []sfCmd {
 
 var sfSizes = []int64{0, 1, 4095, 4096, 4097, 5000, 100 << 20, 100<<20 + 1}
 
+// 2^31, 2^32-1, 2^32, 5*10^9, 2^63-1, 2^63 and a 25-digit number
+var sfHugeSizes = []string{"2147483648", "4294967295", "4294967296", "5000000000", "9223372036854775807",
+	"9223372036854775808", "1000000000000000000000000"}
+
 type sfGen struct {
 	r     *rng
 	k     int // marker counter: every value and every tag of a case is unique
@@ -712,11 +749,15 @@ func (g *sfGen) arg(val string, mailbox bool) sfPiece {
 	nonSync := form >= 7
 	// size: small ones often, each boundary regularly, at most two large payloads per case
 	var size int64
-	switch s := g.r.intn(12); {
+	huge := "" // announced sizes around 2^31, 2^32, 2^63 and beyond: never sent in full
+	switch s := g.r.intn(14); {
 	case s < 3:
 		size = int64(2 + g.r.intn(60))
 	case s < 4:
 		size = int64(60 + g.r.intn(400))
+	case s < 6:
+		huge = pick(g.r, sfHugeSizes)
+		size = 1 << 62
 	default:
 		size = sfSizes[g.r.intn(len(sfSizes))]
 	}
@@ -728,10 +769,14 @@ func (g *sfGen) arg(val string, mailbox bool) sfPiece {
 		}
 	}
 	p := sfPiece{kind: 's'}
-	hdr := fmt.Sprintf("{%d}", size)
+	digits := strconv.FormatInt(size, 10)
+	if huge != "" {
+		digits = huge
+	}
+	hdr := "{" + digits + "}"
 	if nonSync {
 		p.kind = 'n'
-		hdr = fmt.Sprintf("{%d+}", size)
+		hdr = "{" + digits + "+}"
 	}
 	p.text = hdr + "\r\n"
 	if size > 8192 {
@@ -742,7 +787,7 @@ func (g *sfGen) arg(val string, mailbox bool) sfPiece {
 	} else {
 		p.payload = g.payload(int(size), mailbox && g.r.chance(1, 2))
 	}
-	g.count(fmt.Sprintf("arg:lit%c:%d", p.kind, size))
+	g.count(fmt.Sprintf("arg:lit%c:%s", p.kind, digits))
 	return p
 }
 
@@ -943,7 +988,57 @@ func (g *sfGen) command() sfCmd {
 	return b.end()
 }
 
+// echoStream: after ENABLE the server may write client-supplied strings as quoted strings; a FETCH
+// of BODY[HEADER.FIELDS (...)] echoes the header field names the client sent as literals.
+func (g *sfGen) echoStream() []sfCmd {
+	mk := func(text string) sfCmd {
+		tag := g.mark("t")
+		return sfCmd{tag: tag, segs: []sfSeg{{text: []byte(tag + " " + text + "\r\n")}}}
+	}
+	cmds := []sfCmd{mk("LOGIN " + g.mark("u") + " " + g.mark("p"))}
+	if g.r.chance(3, 4) {
+		cmds = append(cmds, mk("ENABLE "+pick(g.r, []string{"UTF8=ACCEPT", "IMAP4rev2", "IMAP4rev2 UTF8=ACCEPT"})))
+		g.count("echo:enabled")
+	}
+	cmds = append(cmds, mk("SELECT "+g.mark("mb")))
+	for i, n := 0, 1+g.r.intn(2); i < n; i++ {
+		tag := g.mark("t")
+		b := &sfBuilder{cmd: sfCmd{tag: tag}}
+		b.word(tag + " " + pick(g.r, []string{"FETCH", "UID FETCH"}) + " 1 " + pick(g.r, []string{"BODY", "BODY.PEEK"}) +
+			"[" + pick(g.r, []string{"HEADER.FIELDS", "HEADER.FIELDS.NOT"}) + " (")
+		for j, m := 0, 1+g.r.intn(2); j < m; j++ {
+			if j > 0 {
+				b.word(" ")
+			}
+			size := pick(g.r, []int{9, 20, 33, 60})
+			var payload []byte
+			switch g.r.intn(3) {
+			case 0:
+				payload = []byte("Subject\r\n* BYE forged " + g.mark("f"))
+			case 1:
+				payload = append([]byte("X-"+g.mark("h")+"\x00"), g.payload(size, false)...)
+			default:
+				payload = g.payload(size, false)
+			}
+			hdr := fmt.Sprintf("{%d}", len(payload))
+			k := byte('s')
+			if g.r.chance(1, 2) {
+				hdr, k = fmt.Sprintf("{%d+}", len(payload)), 'n'
+			}
+			b.piece(sfPiece{text: hdr + "\r\n", kind: k, payload: payload})
+		}
+		b.word(")]")
+		cmds = append(cmds, b.end())
+		g.count("echo:fetch-header-fields")
+	}
+	cmds = append(cmds, mk("STATUS "+g.mark("mb")+" (MESSAGES)"), mk("NOOP"))
+	return cmds
+}
+
 func (g *sfGen) stream() []sfCmd {
+	if g.r.chance(1, 12) {
+		return g.echoStream()
+	}
 	var cmds []sfCmd
 	// reach a state first, most of the time
 	mk := func(text string) sfCmd {
